@@ -266,7 +266,7 @@ def high_order_body(ctx, case):
 
 
 def very_high_cases(tier):
-    ns = [31, 36, 40, 44, 45, 50, 60] if tier == "quick" else [31, 33, 36, 40, 44, 45, 50, 55, 60, 80, 120, 170, 171, 200]
+    ns = [13, 20, 26, 31, 36, 40, 44, 45, 50, 60] if tier == "quick" else [13, 17, 20, 26, 31, 33, 36, 40, 44, 45, 50, 55, 60, 80, 120, 170, 171, 200]
     out = []
     for n in ns:
         for am in sorted({n % 2, n % 2 + 2, n // 3 + ((n - n // 3) % 2), n - 2}):
